@@ -1567,9 +1567,33 @@ func (s *Session) callSiteAsserts(fr *Frame, cc *ssa.CallCommon, st *State, inst
 	for i, cl := range clauses {
 		subs := splitClause(cl)
 		for _, sub := range subs {
-			f := s.evalBoolClauseAt(fr, sub, st, instr.Block(), idx)
-			g := s.evalGoalClauseAt(fr, sub, st, instr.Block(), idx)
-			s.addObl(&Obligation{Name: fmt.Sprintf("%s/%s@%s#%d.%s", fr.oblPfx, phase, name, k, clauseNameSplit(cl, i, sub, len(subs))), Kind: "assert", Func: fr.oblPfx, Src: "at call " + name + " (" + phase + "): " + sub.Src, Guard: st.Reach, Formula: g, Using: cl.Using})
+			oname := fmt.Sprintf("%s/%s@%s#%d.%s", fr.oblPfx, phase, name, k, clauseNameSplit(cl, i, sub, len(subs)))
+			var f, g T
+			// a clause that names the result of a call (callres) which has not run when this call is reached cannot
+			// hold: the call it relies on comes later or not at all - a failed obligation, not an unreadable contract
+			notYet := func() (ny bool) {
+				defer func() {
+					if r := recover(); r != nil {
+						if e, ok := r.(specErr); ok && strings.Contains(e.msg, "no such call executed yet") {
+							ny = true
+							return
+						}
+						if e, ok := r.(string); ok && strings.Contains(e, "no such call executed yet") {
+							ny = true
+							return
+						}
+						panic(r)
+					}
+				}()
+				f = s.evalBoolClauseAt(fr, sub, st, instr.Block(), idx)
+				g = s.evalGoalClauseAt(fr, sub, st, instr.Block(), idx)
+				return false
+			}()
+			if notYet {
+				s.addObl(&Obligation{Name: oname, Kind: "assert", Func: fr.oblPfx, Src: "at call " + name + " (" + phase + "): " + sub.Src + "   [names the result of a call that has not run at this point]", Guard: st.Reach, Formula: TFalse, Using: cl.Using})
+				continue
+			}
+			s.addObl(&Obligation{Name: oname, Kind: "assert", Func: fr.oblPfx, Src: "at call " + name + " (" + phase + "): " + sub.Src, Guard: st.Reach, Formula: g, Using: cl.Using})
 			so := s.curOrigin
 			s.curOrigin = fmt.Sprintf("at:%s#%d", name, k)
 			s.assume(Imp(st.Reach, f))
